@@ -330,4 +330,259 @@ theorem hitAll_false_of_ok {eps : α} (heps : 0 ≤ eps) (an : Bool) : ∀ (xs l
         exact ⟨XR.outsideEps_false_of_ok heps an x l h hv.1, ih lo hi hv.2⟩
 end lists_eps
 
+/-! ### the store -/
+section store
+variable {α : Type}
+
+@[simp] theorem alloc_next (s : Store α) (a : List (XR α)) : (s.alloc a).1.next = s.next + 1 := rfl
+@[simp] theorem alloc_ref (s : Store α) (a : List (XR α)) : (s.alloc a).2 = s.next := rfl
+theorem alloc_cells_old (s : Store α) (a : List (XR α)) (r : Nat) (h : r < s.next) :
+    (s.alloc a).1.cells r = s.cells r := by
+  have : r ≠ s.next := Nat.ne_of_lt h
+  simp [Store.alloc, this]
+@[simp] theorem alloc_cells_new (s : Store α) (a : List (XR α)) : (s.alloc a).1.cells s.next = a := by
+  simp [Store.alloc]
+@[simp] theorem write_next (s : Store α) (r : Nat) (i : Nat) (x : XR α) : (s.write r i x).next = s.next := rfl
+theorem write_cells_ne (s : Store α) (r r' : Nat) (i : Nat) (x : XR α) (h : r' ≠ r) :
+    (s.write r i x).cells r' = s.cells r' := by simp [Store.write, h]
+@[simp] theorem write_cells_eq (s : Store α) (r : Nat) (i : Nat) (x : XR α) :
+    (s.write r i x).cells r = (s.cells r).set i x := by simp [Store.write]
+end store
+
+/-! ### invariants -/
+section inv
+variable {α : Type} [LinearOrder α]
+
+/-- a vector is well formed in a store: its four arrays are allocated, pairwise distinct, of length `nval`;
+names are unique; bounds are real intervals; defaults and values lie inside them (NaN only with permission);
+the option flags are consistent and an unmaintained hit flag is off -/
+structure VecOk (s : Store α) (v : Vec) : Prop where
+  lt_next : ∀ r ∈ v.refs, r < s.next
+  nodup : v.refs.Nodup
+  len_values : (s.cells v.values).length = v.n
+  len_mins : (s.cells v.mins).length = v.n
+  len_maxs : (s.cells v.maxs).length = v.n
+  len_defaults : (s.cells v.defaults).length = v.n
+  names : nodupB v.names = true
+  bounds : boundsOk (s.cells v.mins) (s.cells v.maxs) = true
+  defaults_ok : valuesOk v.acceptNan (s.cells v.defaults) (s.cells v.mins) (s.cells v.maxs) = true
+  values_ok : valuesOk v.acceptNan (s.cells v.values) (s.cells v.mins) (s.cells v.maxs) = true
+  flags : v.checkHit = true → v.checkBounds = true
+  hit_off : v.checkHit = false → v.hit = false
+
+/-- all vectors well formed, and no array shared between two vectors -/
+structure WorldOk (w : World α) : Prop where
+  each : ∀ (k : Nat) (v : Vec), w.vecs[k]? = some v → VecOk w.store v
+  sep : ∀ (i j : Nat) (vi vj : Vec), w.vecs[i]? = some vi → w.vecs[j]? = some vj → i ≠ j → ∀ r ∈ vi.refs, r ∉ vj.refs
+
+theorem VecOk.congr {s s' : Store α} {v : Vec} (h : VecOk s v) (hn : s.next ≤ s'.next)
+    (hc : ∀ r ∈ v.refs, s'.cells r = s.cells r) : VecOk s' v := by
+  have e1 := hc v.values (by simp [Vec.refs])
+  have e2 := hc v.mins (by simp [Vec.refs])
+  have e3 := hc v.maxs (by simp [Vec.refs])
+  have e4 := hc v.defaults (by simp [Vec.refs])
+  exact { lt_next := fun r hr => Nat.lt_of_lt_of_le (h.lt_next r hr) hn
+          nodup := h.nodup
+          len_values := by rw [e1]; exact h.len_values
+          len_mins := by rw [e2]; exact h.len_mins
+          len_maxs := by rw [e3]; exact h.len_maxs
+          len_defaults := by rw [e4]; exact h.len_defaults
+          names := h.names
+          bounds := by rw [e2, e3]; exact h.bounds
+          defaults_ok := by rw [e4, e2, e3]; exact h.defaults_ok
+          values_ok := by rw [e1, e2, e3]; exact h.values_ok
+          flags := h.flags
+          hit_off := h.hit_off }
+
+/-- the footprint of an accepted assignment on `v` -/
+structure Assign (s : Store α) (v : Vec) (s' : Store α) (v' : Vec) : Prop where
+  next_le : s.next ≤ s'.next
+  frame : ∀ r, r < s.next → r ≠ v.values → s'.cells r = s.cells r
+  values_ref : v'.values = v.values ∨ s.next ≤ v'.values
+  names : v'.names = v.names
+  mins : v'.mins = v.mins
+  maxs : v'.maxs = v.maxs
+  defaults : v'.defaults = v.defaults
+  checkBounds : v'.checkBounds = v.checkBounds
+  checkHit : v'.checkHit = v.checkHit
+  acceptNan : v'.acceptNan = v.acceptNan
+
+/-- the footprint of an operation that only allocates a new vector -/
+structure Spawn (s s' : Store α) (c : Vec) : Prop where
+  next_le : s.next ≤ s'.next
+  frame : ∀ r, r < s.next → s'.cells r = s.cells r
+  fresh : ∀ r ∈ c.refs, s.next ≤ r
+
+theorem indexOf_lt (nm : String) : ∀ (l : List String) (i : Nat), indexOf nm l = some i → i < l.length := by
+  intro l
+  induction l with
+  | nil => intro i h; simp [indexOf] at h
+  | cons a t ih =>
+    intro i h
+    simp only [indexOf] at h
+    split at h
+    · simp at h; subst h; simp
+    · cases hi : indexOf nm t with
+      | none => simp [hi] at h
+      | some j => simp [hi] at h; have := ih j hi; simp; omega
+
+theorem getElem?_of_lt {β : Type} (l : List β) (i : Nat) (h : i < l.length) : ∃ x, l[i]? = some x :=
+  ⟨l[i], List.getElem?_eq_getElem h⟩
+
+end inv
+
+/-! ### single-vector operations -/
+section ops
+variable {α : Type} [LinearOrder α] [Add α] [Sub α]
+
+theorem VecOk.distinct {s : Store α} {v : Vec} (h : VecOk s v) :
+    v.values ≠ v.mins ∧ v.values ≠ v.maxs ∧ v.values ≠ v.defaults ∧ v.mins ≠ v.maxs ∧ v.mins ≠ v.defaults
+      ∧ v.maxs ≠ v.defaults := by
+  have := h.nodup
+  simp only [Vec.refs, List.nodup_cons, List.mem_cons, List.mem_singleton, not_or, List.not_mem_nil,
+    not_false_eq_true, List.nodup_nil, and_true] at this
+  tauto
+
+theorem Assign.refl (s : Store α) (v : Vec) : Assign s v s v :=
+  ⟨Nat.le_refl _, fun _ _ _ => rfl, Or.inl rfl, rfl, rfl, rfl, rfl, rfl, rfl, rfl⟩
+
+theorem setAttr_effect {s s' : Store α} {v v' : Vec} (h : VecOk s v) (nm : String) (x : XR α)
+    (e : setAttr s v nm x = ((s', v'), .ok)) : Assign s v s' v' ∧ VecOk s' v' := by
+  unfold setAttr at e
+  split at e
+  · simp only [Prod.mk.injEq, and_true] at e; obtain ⟨rfl, rfl⟩ := e
+    exact ⟨Assign.refl _ _, h⟩
+  · rename_i i hi
+    split at e
+    · simp at e
+    · rename_i hnan
+      split at e
+      · rename_i lo hi hlo hhi
+        simp only [Prod.mk.injEq, and_true] at e; obtain ⟨rfl, rfl⟩ := e
+        obtain ⟨d1, d2, d3, d4, d5, d6⟩ := h.distinct
+        have hb := all2_get boundElem _ _ i lo hi h.bounds hlo hhi
+        have hb' := hb
+        simp only [boundElem, Bool.and_eq_true, Bool.not_eq_true'] at hb'
+        have hx : x.isNaN = true → v.acceptNan = true := by
+          intro hx; cases ha : v.acceptNan <;> simp_all
+        have hok : okElem v.acceptNan (XR.clipPy x lo hi) lo hi = true := by
+          rw [XR.clipPy_eq_clipNp x lo hi hb'.1.1 hb'.1.2]; exact okElem_clipNp _ x lo hi hb hx
+        refine ⟨⟨Nat.le_refl _, fun r _ hr => write_cells_ne _ _ _ _ _ hr, Or.inl rfl, rfl, rfl, rfl, rfl, rfl, rfl, rfl⟩, ?_⟩
+        have c2 := write_cells_ne s v.values v.mins i (XR.clipPy x lo hi) d1.symm
+        have c3 := write_cells_ne s v.values v.maxs i (XR.clipPy x lo hi) d2.symm
+        have c4 := write_cells_ne s v.values v.defaults i (XR.clipPy x lo hi) d3.symm
+        exact { lt_next := h.lt_next
+                nodup := h.nodup
+                len_values := by
+                  show ((s.write _ _ _).cells v.values).length = v.names.length
+                  rw [write_cells_eq, List.length_set]; exact h.len_values
+                len_mins := by show ((s.write _ _ _).cells v.mins).length = _; rw [c2]; exact h.len_mins
+                len_maxs := by show ((s.write _ _ _).cells v.maxs).length = _; rw [c3]; exact h.len_maxs
+                len_defaults := by show ((s.write _ _ _).cells v.defaults).length = _; rw [c4]; exact h.len_defaults
+                names := h.names
+                bounds := by show boundsOk ((s.write _ _ _).cells v.mins) ((s.write _ _ _).cells v.maxs) = _
+                             rw [c2, c3]; exact h.bounds
+                defaults_ok := by
+                  show valuesOk _ ((s.write _ _ _).cells v.defaults) ((s.write _ _ _).cells v.mins)
+                    ((s.write _ _ _).cells v.maxs) = _
+                  rw [c2, c3, c4]; exact h.defaults_ok
+                values_ok := by
+                  show valuesOk _ ((s.write _ _ _).cells v.values) ((s.write _ _ _).cells v.mins)
+                    ((s.write _ _ _).cells v.maxs) = _
+                  rw [c2, c3, write_cells_eq]
+                  exact all3_set _ _ _ _ i _ lo hi h.values_ok hlo hhi hok
+                flags := h.flags
+                hit_off := by
+                  intro hc
+                  have hc' : v.checkHit = false := hc
+                  simp [hc', h.hit_off hc'] }
+      · simp at e
+
+/-- under `VecOk` the index error branch of `setAttr` is dead -/
+theorem setAttr_no_index {s : Store α} {v : Vec} (h : VecOk s v) (nm : String) (x : XR α) :
+    (setAttr s v nm x).2 ≠ .rejected .index := by
+  unfold setAttr
+  split
+  · simp
+  · rename_i i hi
+    split
+    · simp
+    · have hlt := indexOf_lt nm v.names i hi
+      obtain ⟨lo, hlo⟩ := getElem?_of_lt (s.cells v.mins) i (by rw [h.len_mins]; exact hlt)
+      obtain ⟨hi', hhi⟩ := getElem?_of_lt (s.cells v.maxs) i (by rw [h.len_maxs]; exact hlt)
+      simp [hlo, hhi]
+
+theorem setKey_effect {s s' : Store α} {v v' : Vec} (h : VecOk s v) (nm : String) (x : XR α)
+    (e : setKey s v nm x = ((s', v'), .ok)) : Assign s v s' v' ∧ VecOk s' v' := by
+  unfold setKey at e
+  split at e
+  · simp at e
+  · exact setAttr_effect h nm x e
+
+theorem reject?_none {an : Bool} {n : Nat} {xs : List (XR α)} (h : reject? an n xs = none) :
+    xs.length = n ∧ (xs.any XR.isNaN = true → an = true) := by
+  unfold reject? at h
+  split at h
+  · simp at h
+  · split at h
+    · simp at h
+    · rename_i h1 h2
+      refine ⟨by simpa using h1, fun hx => ?_⟩
+      cases an <;> simp_all
+
+theorem setAll_effect (eps : α) {s s' : Store α} {v v' : Vec} (h : VecOk s v) (xs : List (XR α))
+    (e : setAll eps s v xs = ((s', v'), .ok)) : Assign s v s' v' ∧ VecOk s' v' := by
+  unfold setAll at e
+  split at e
+  · simp at e
+  · rename_i hrej
+    obtain ⟨hlen, hnan⟩ := reject?_none hrej
+    simp only [Prod.mk.injEq, and_true] at e; obtain ⟨rfl, rfl⟩ := e
+    have hr := h.lt_next
+    simp only [Vec.refs, List.mem_cons, List.mem_singleton, List.not_mem_nil, or_false, forall_eq_or_imp, forall_eq] at hr
+    obtain ⟨r1, r2, r3, r4⟩ := hr
+    obtain ⟨d1, d2, d3, d4, d5, d6⟩ := h.distinct
+    set a := clipAll xs (s.cells v.mins) (s.cells v.maxs) with ha
+    have c2 := alloc_cells_old s a v.mins r2
+    have c3 := alloc_cells_old s a v.maxs r3
+    have c4 := alloc_cells_old s a v.defaults r4
+    refine ⟨⟨by simp, fun r hr _ => alloc_cells_old s a r hr, Or.inr (by simp), rfl, rfl, rfl, rfl, rfl, rfl, rfl⟩, ?_⟩
+    exact { lt_next := by
+              intro r hr
+              simp only [Vec.refs, List.mem_cons, List.mem_singleton, List.not_mem_nil, or_false, alloc_ref] at hr
+              simp only [alloc_next]
+              rcases hr with e | e | e | e <;> rw [e] <;> omega
+            nodup := by
+              simp only [Vec.refs, alloc_ref, List.nodup_cons, List.mem_cons, List.mem_singleton, not_or,
+                List.not_mem_nil, not_false_eq_true, List.nodup_nil, and_true]
+              refine ⟨⟨?_, ?_, ?_⟩, ⟨d4, d5⟩, d6⟩ <;> omega
+            len_values := by
+              show ((s.alloc a).1.cells s.next).length = _
+              rw [alloc_cells_new]; exact clipAll_length _ _ _ _ hlen h.len_mins h.len_maxs
+            len_mins := by show ((s.alloc a).1.cells v.mins).length = _; rw [c2]; exact h.len_mins
+            len_maxs := by show ((s.alloc a).1.cells v.maxs).length = _; rw [c3]; exact h.len_maxs
+            len_defaults := by show ((s.alloc a).1.cells v.defaults).length = _; rw [c4]; exact h.len_defaults
+            names := h.names
+            bounds := by
+              show boundsOk ((s.alloc a).1.cells v.mins) ((s.alloc a).1.cells v.maxs) = _
+              rw [c2, c3]; exact h.bounds
+            defaults_ok := by
+              show valuesOk _ ((s.alloc a).1.cells v.defaults) ((s.alloc a).1.cells v.mins) ((s.alloc a).1.cells v.maxs) = _
+              rw [c2, c3, c4]; exact h.defaults_ok
+            values_ok := by
+              show valuesOk _ ((s.alloc a).1.cells s.next) ((s.alloc a).1.cells v.mins) ((s.alloc a).1.cells v.maxs) = _
+              rw [c2, c3, alloc_cells_new]
+              exact valuesOk_clipAll _ _ _ _ h.bounds hnan
+            flags := h.flags
+            hit_off := by
+              intro hc
+              have hc' : v.checkHit = false := hc
+              simp [hc'] }
+
+theorem reset_effect (eps : α) {s s' : Store α} {v v' : Vec} (h : VecOk s v)
+    (e : reset eps s v = ((s', v'), .ok)) : Assign s v s' v' ∧ VecOk s' v' :=
+  setAll_effect eps h _ e
+
+end ops
+
 end HydroVerif.C12
